@@ -63,7 +63,7 @@ def cases(ctx):
                     yield {"version": version, "steps": steps}
     ctx.exhaustive["shape-x-version-x-requests"] = count
     # random subsets, storms, faults
-    for i in range(ctx.pick(150, 10000) // ctx.shard_count):
+    for i in range(ctx.pick(150, 60000) // ctx.shard_count):
         version = [None, *VERSIONS][i % 6]
         size = rng.choice([0, 1, 3, 10, 100, 250])
         shape = sorted(rng.sample(range(0, 256), size))
